@@ -1,0 +1,29 @@
+//go:build verif
+
+// Verification hooks (build tag "verif") for the traffic-pattern property. Add-only: thin
+// exported wrappers around unexported decision functions; no behaviour change.
+
+package protocol
+
+import (
+	"net"
+
+	"github.com/enfein/mieru/v3/pkg/appctl/appctlpb"
+)
+
+// VerifLowEntropySendConfig evaluates Session.lowEntropySendConfig for a session that has
+// the given traffic pattern, role and "client used low entropy" flag.
+func VerifLowEntropySendConfig(pattern *appctlpb.TrafficPattern, isClient bool, clientUsedLowEntropy bool) (mode int, rotation int, enabled bool) {
+	s := &Session{isClient: isClient, trafficPattern: pattern}
+	s.clientUseLowEntropy.Store(clientUsedLowEntropy)
+	m, r, on := s.lowEntropySendConfig()
+	return int(m), int(r), on
+}
+
+// VerifWriteWithPossibleFragment runs StreamUnderlay.writeWithPossibleFragment against the
+// given connection with the given traffic pattern.
+func VerifWriteWithPossibleFragment(conn net.Conn, pattern *appctlpb.TrafficPattern, data []byte) error {
+	t := &StreamUnderlay{conn: conn}
+	t.trafficPattern = pattern
+	return t.writeWithPossibleFragment(data)
+}
